@@ -537,6 +537,24 @@ func (env *SpecEnv) call(n *ast.CallExpr) *Val {
 			}
 			x.typeFacts(out)
 			return out
+		case "last", "last1", "last2":
+			fid, ok := n.Args[0].(*ast.Ident)
+			if !ok {
+				sfail("last(f): f must be a function or method name")
+			}
+			k := 0
+			if id.Name != "last" {
+				k = int(id.Name[4] - '0')
+			}
+			cells := x.lastCalls[fid.Name]
+			if k >= len(cells) {
+				sfail("last(%s): no call to %s with result %d was executed", fid.Name, fid.Name, k)
+			}
+			v, ok := env.st.cells[cells[k]]
+			if !ok {
+				sfail("last(%s): %s has not been called on this path", fid.Name, fid.Name)
+			}
+			return v
 		case "has":
 			m := env.eval(n.Args[0])
 			if !isMap(m.Ty) {
@@ -659,6 +677,12 @@ func (env *SpecEnv) call(n *ast.CallExpr) *Val {
 		if t := x.w.resolveType(env.pkg, n.Fun); t != nil && len(n.Args) == 1 {
 			return env.convert(env.eval(n.Args[0]), t)
 		}
+	} else if sf := env.qualifiedSpec(n.Fun); sf != nil {
+		args := make([]*Val, len(n.Args))
+		for i, a := range n.Args {
+			args[i] = env.eval(a)
+		}
+		return env.callSpec(sf, args)
 	} else if t := x.w.resolveTypeQuiet(env.pkg, n.Fun); t != nil && len(n.Args) == 1 {
 		return env.convert(env.eval(n.Args[0]), t)
 	}
@@ -1000,4 +1024,27 @@ func (env *SpecEnv) callReal(n *ast.CallExpr) *Val {
 // errorsIs models errors.Is(err, target) for sentinel targets.
 func (x *Exec) errorsIs(e, target string) string {
 	return tAnd(tNot(tEq(e, "0")), tOr(tEq(e, target), "(unwraps_ "+e+" "+target+")"))
+}
+
+// qualifiedSpec resolves pkg.name to a spec function of an imported package.
+func (env *SpecEnv) qualifiedSpec(f ast.Expr) *SpecFunc {
+	sel, ok := f.(*ast.SelectorExpr)
+	if !ok {
+		return nil
+	}
+	id, ok := sel.X.(*ast.Ident)
+	if !ok {
+		return nil
+	}
+	if _, isVar := env.vars[id.Name]; isVar {
+		return nil
+	}
+	p := env.importedPkg(id.Name)
+	if p == nil {
+		return nil
+	}
+	if sf, ok := env.x.w.specs[p.Path()+"."+sel.Sel.Name]; ok {
+		return sf
+	}
+	return nil
 }
